@@ -33,8 +33,10 @@ Theorem C08_code_structure_wf : forall m clock node rt b, wf_bundle_u b = true -
   update_extensions_api m clock node rt b = update_extensions m clock node rt b.
 Proof. intros m clock node rt b H. apply update_extensions_api_eq, wf_hop_u8, H. Qed.
 
-(* the exhaustive tie for the hop count: for EVERY (limit, count) in u8 x u8 the library's hop_count_increase / hop_count_exceeded /
-   hop_count_get (table written from the compiled crate on every run) answer what the model's block-level operations answer *)
+(* the exhaustive tie for the hop count - the first quantifier of the property, "all 65 536 (limit, count) pairs": for EVERY pair the
+   library's Bundle::update_extensions on a bundle carrying that hop count block (table written from the compiled crate on every run)
+   returns what the model returns, with the count the model computes when it returns true, and never a lower count when false
+   (hop_bundle / hop_answer: Proofs/TieHop.v) *)
 Theorem C08_tie_hop_count : forall l k, l < 256 -> k < 256 -> code_hop l k = hop_answer l k.
 Proof. exact tie_hop. Qed.
 
